@@ -53,6 +53,12 @@ func c12IntPair(c *Ctx, v int64, size int64) {
 		if ok {
 			d, err := data.DecodeIntN(encB)
 			ok = err == nil && int64(d) == v && int64(data.Integer(encA).Int()) == v
+			// every decoder the library offers for the same bytes: the checked ones too
+			if ok {
+				si, serr := data.Integer(encA).IntSafe()
+				su, uerr := data.Integer(encA).UintSafe()
+				ok = serr == nil && int64(si) == v && uerr == nil && su == uint64(v)
+			}
 		}
 		c.Check("int_roundtrip", ok, "EncodeIntN", args, "", fmt.Sprintf("v=%d size=%d encA=%x encB=%x errA=%v errB=%v", v, size, encA, encB, errA, errB))
 	} else {
